@@ -92,30 +92,48 @@ MUTATIONS = [
 ]
 
 
-def run(ids):
+def one(m):
+    prop, name, rel, old, new, expect = m
+    scratch = tempfile.mkdtemp(prefix="verif-scratch-", dir="/var/tmp")
+    try:
+        shutil.copytree("/repo/src", os.path.join(scratch, "src"))
+        path = os.path.join(scratch, "src", "tensora", rel)
+        text = open(path).read()
+        if text.count(old) != 1:
+            return False, f"SELFTEST {prop} {name}: pattern found {text.count(old)} times - mutation not applicable"
+        open(path, "w").write(text.replace(old, new))
+        env = dict(os.environ, VERIF_REPO_SRC=os.path.join(scratch, "src"), VERIF_SELFTEST="1")
+        p = subprocess.run([os.path.join(HERE, "vt"), "check", prop, "--tier", "quick"], capture_output=True, text=True, env=env, timeout=7200)
+        lines = [l for l in p.stdout.splitlines() if l.startswith(("VIOLATION", "UNDECIDED", "CHECKER"))]
+        verdict = "ok" if p.returncode == expect else "WRONG"
+        return verdict == "ok", f"SELFTEST {prop} {name}: exit {p.returncode} expected {expect} -> {verdict}; {lines[:2]}"
+    finally:
+        shutil.rmtree(scratch, ignore_errors=True)
+
+
+def run(argv):
+    """./vt selftest [-jN] [ID|name ...]   (N mutations at a time; evidence/ and replays/ are rewritten by these runs)"""
+    jobs = 1
+    ids = []
+    for a in argv:
+        if a.startswith("-j"):
+            jobs = max(1, int(a[2:] or 1))
+        else:
+            ids.append(a)
+    todo = [m for m in MUTATIONS if not ids or m[0] in ids or m[1] in ids]
     ok = True
-    for prop, name, rel, old, new, expect in MUTATIONS:
-        if ids and prop not in ids and name not in ids:
-            continue
-        scratch = tempfile.mkdtemp(prefix="verif-scratch-", dir="/var/tmp")
-        try:
-            shutil.copytree("/repo/src", os.path.join(scratch, "src"))
-            path = os.path.join(scratch, "src", "tensora", rel)
-            text = open(path).read()
-            if text.count(old) != 1:
-                print(f"SELFTEST {prop} {name}: pattern found {text.count(old)} times - mutation not applicable")
-                ok = False
-                continue
-            open(path, "w").write(text.replace(old, new))
-            env = dict(os.environ, VERIF_REPO_SRC=os.path.join(scratch, "src"), VERIF_SELFTEST="1")
-            p = subprocess.run([os.path.join(HERE, "vt"), "check", prop, "--tier", "quick"], capture_output=True, text=True, env=env, timeout=3600)
-            lines = [l for l in p.stdout.splitlines() if l.startswith(("VIOLATION", "UNDECIDED", "CHECKER"))]
-            verdict = "ok" if p.returncode == expect else "WRONG"
-            if verdict == "WRONG":
-                ok = False
-            print(f"SELFTEST {prop} {name}: exit {p.returncode} expected {expect} -> {verdict}; {lines[:2]}")
-        finally:
-            shutil.rmtree(scratch, ignore_errors=True)
+    if jobs == 1:
+        for m in todo:
+            good, line = one(m)
+            ok = ok and good
+            print(line, flush=True)
+    else:
+        import concurrent.futures as cf
+
+        with cf.ThreadPoolExecutor(max_workers=jobs) as ex:
+            for good, line in ex.map(one, todo):
+                ok = ok and good
+                print(line, flush=True)
     return 0 if ok else 1
 
 
